@@ -1,17 +1,17 @@
 #!/bin/bash
-# Development aid: evaluate a seeded change on a scratch worktree of /repo's HEAD (/tmp/rt/base) via VERIF_REPO,
+# Development aid: evaluate a seeded change on a scratch worktree of /repo's HEAD (${BASE:-/tmp/rt/base}) via VERIF_REPO,
 # without touching /repo. usage: eval_seed_base.sh <seed id> <patch> <tier> <check ids...>
 id="$1"; patch="$2"; tier="$3"; shift 3
-cd /tmp/rt/base && git checkout -q -- . && git apply "$patch" || { echo "$id: patch does not apply"; exit 8; }
-t=$(PYTHONPATH=/tmp/rt/base /venv/bin/python -m pytest -q -p no:cacheprovider --timeout=900 2>&1 | tail -1)
-PYTHONPATH=/tmp/rt/base /venv/bin/python ${SEEDROOT:-/tmp/rt}/$id/demo.py > /tmp/demo_$id.seeded.out 2>&1; d1=$?
+cd ${BASE:-/tmp/rt/base} && git checkout -q -- . && git apply "$patch" || { echo "$id: patch does not apply"; exit 8; }
+t=$(PYTHONPATH=${BASE:-/tmp/rt/base} /venv/bin/python -m pytest -q -p no:cacheprovider --timeout=900 2>&1 | tail -1)
+PYTHONPATH=${BASE:-/tmp/rt/base} /venv/bin/python ${SEEDROOT:-/tmp/rt}/$id/demo.py > /tmp/demo_$id.seeded.out 2>&1; d1=$?
 PYTHONPATH=/repo /venv/bin/python ${SEEDROOT:-/tmp/rt}/$id/demo.py > /tmp/demo_$id.clean.out 2>&1; d0=$?
 echo "$id: tests: $t | demo clean rc=$d0 seeded rc=$d1"
 cd /verif
 for p in "$@"; do
   s=$(date +%s)
-  VERIF_REPO=/tmp/rt/base ./check $p $tier > /tmp/seedbase_${id}_${p}.out 2>&1; rc=$?
+  VERIF_REPO=${BASE:-/tmp/rt/base} ./check $p $tier > /tmp/seedbase_${id}_${p}.out 2>&1; rc=$?
   e=$(date +%s)
   echo "   check $p rc=$rc $((e-s))s violations=$(grep -c '^VIOLATION' /tmp/seedbase_${id}_${p}.out) herr=$(grep -c '^HARNESS-ERROR' /tmp/seedbase_${id}_${p}.out) | $(grep -m1 -A1 '^VIOLATION' /tmp/seedbase_${id}_${p}.out | tail -1 | cut -c1-200)"
 done
-cd /tmp/rt/base && git checkout -q -- .
+cd ${BASE:-/tmp/rt/base} && git checkout -q -- .
